@@ -825,6 +825,8 @@ pub struct E2eAircraft {
     pub odd_first: bool,
     /// heard by every receiver (each report is delivered through all sources, a millisecond apart)
     pub both: bool,
+    /// its airborne reports carry no altitude
+    pub no_alt: bool,
 }
 
 #[derive(Clone, Debug)]
@@ -846,16 +848,17 @@ pub fn e2e_scenario(c: &E2eCase) -> (crate::e2e::Scenario, std::collections::BTr
         let start = destination(r.0, r.1, a.bearing, a.dist_nm.clamp(0.0, 1.0) * range * NM);
         let v = if a.surface { a.speed_kt.min(20.0) } else { a.speed_kt.min(100.0) } * KT;
         for i in 0..a.n.max(2) {
-            let t = i as f64 * 0.04 + k as f64 * 0.007;
+            // ground traffic may start a quarter of a second after the airborne traffic has been located
+            let t = i as f64 * 0.04 + k as f64 * 0.007 + if a.surface && a.odd_first { 0.25 } else { 0.0 };
             let (lat, lon) = destination(start.0, start.1, (a.bearing * 3.0) % 360.0, v * t);
-            let rep = Report { ac: k, icao: a.icao, ts: t, arrival: t, lat, lon, surface: a.surface, odd: (i % 2 == 1) != a.odd_first, df18: a.df18, alt_ft: 6_000 + 25 * (k as i32), filler: 0, only_filler: false };
+            let rep = Report { ac: k, icao: a.icao, ts: t, arrival: t, lat, lon, surface: a.surface, odd: (i % 2 == 1) != a.odd_first, df18: a.df18, alt_ft: if a.no_alt { NO_ALT } else { 6_000 + 25 * (k as i32) }, filler: 0, only_filler: false };
             let frame = frame_of(&rep);
             truth.insert(hex::encode(&frame), (lat, lon, a.surface));
-            sends.push((t, crate::e2e::Send { source: src, frame: frame.clone(), pause_ms: 0, cut: 0 }));
+            sends.push((t, crate::e2e::Send { source: src, frame: frame.clone(), pause_ms: 0, cut: 0, clock_offset_s: None }));
             if a.both && !a.surface {
                 for other in 0..c.refs.len() {
                     if other != src {
-                        sends.push((t + 0.001, crate::e2e::Send { source: other, frame: frame.clone(), pause_ms: 0, cut: 0 }));
+                        sends.push((t + 0.001, crate::e2e::Send { source: other, frame: frame.clone(), pause_ms: 0, cut: 0, clock_offset_s: None }));
                     }
                 }
             }
@@ -869,12 +872,20 @@ pub fn e2e_scenario(c: &E2eCase) -> (crate::e2e::Scenario, std::collections::BTr
         s.pause_ms = (gap * 1000.0).round() as u32;
         out.push(s);
     }
-    let sc = crate::e2e::Scenario { references: c.refs.iter().map(|r| Some(*r)).collect(), sends: out, df_filter: None, aircraft_filter: None, dedup_ms: 60, update_position: c.update_position, with_file: false, via_config: c.via_config, split: 0, long_table: false, track: vec![] };
+    let sc = crate::e2e::Scenario { references: c.refs.iter().map(|r| Some(*r)).collect(), sends: out, df_filter: None, aircraft_filter: None, dedup_ms: 60, update_position: c.update_position, with_file: false, via_config: c.via_config, split: 0, long_table: false, history_expire: None, track: vec![] };
     (sc, truth)
 }
 
 pub fn judge_e2e(ctx: &Ctx, out: &crate::e2e::Outcome, truth: &std::collections::BTreeMap<String, (f64, f64, bool)>, rep: &Value) -> Check {
     let fail = |sig: &str, d: String| Failure::new(format!("c06:e2e:{sig}"), d, rep.clone());
+    if let Some(gap) = rep["needs_gap_s"].as_f64() {
+        let ts: Vec<f64> = out.lines.iter().filter_map(|l| serde_json::from_str::<Value>(l).ok()).filter(|v| v["frame"].as_str().map(|f| truth.contains_key(f)).unwrap_or(false)).filter_map(|v| v["timestamp"].as_f64()).collect();
+        let spread = ts.iter().cloned().fold(f64::MIN, f64::max) - ts.iter().cloned().fold(f64::MAX, f64::min);
+        if ts.len() < 2 || !(spread > gap) {
+            ctx.exclude("end-to-end scenario not judged: the arrival times printed are not far enough apart");
+            return Ok(());
+        }
+    }
     let mut npos = 0;
     for l in &out.lines {
         let v: Value = serde_json::from_str(l).map_err(|e| fail("malformed-line", format!("{e}: {l}")))?;
@@ -927,8 +938,37 @@ pub fn replay_e2e(ctx: &Ctx, env: &crate::e2e::Env, sc: &crate::e2e::Scenario, t
     }
 }
 
+/// One fast aircraft, two receivers with different clocks: its even report arrives through a receiver whose Beast
+/// time stamps are meaningless, its odd report 18 s later (6.5 km further on at 700 kt) through a receiver whose Beast
+/// stamps are a plausible time of day running 12 s late. By arrival time the reports are 18 s apart, too far to be
+/// paired; anything that mixes the sensor's clock with the arrival clock sees them 6 s apart and pairs them into a
+/// position one latitude zone away. Judged only if the two records are printed with arrival times more than 10.5 s
+/// apart (otherwise the run itself compressed the gap and says nothing).
+pub fn clock_mix(ctx: &Ctx, env: &crate::e2e::Env) -> Check {
+    ctx.eval();
+    let (la, lo) = (47.3, 8.5);
+    let mk = |t: f64, odd: bool| {
+        let (lat, lon) = destination(la, lo, 10.0, 700.0 * KT * t);
+        let r = Report { ac: 0, icao: 0x4b1805, ts: t, arrival: t, lat, lon, surface: false, odd, df18: false, alt_ft: 36_000, filler: 0, only_filler: false };
+        (frame_of(&r), (lat, lon, false))
+    };
+    let (f0, t0) = mk(0.0, false);
+    let (f1, t1) = mk(18.0, true);
+    let mut truth = std::collections::BTreeMap::new();
+    truth.insert(hex::encode(&f0), t0);
+    truth.insert(hex::encode(&f1), t1);
+    let sc = crate::e2e::Scenario {
+        references: vec![None, None],
+        sends: vec![crate::e2e::Send { source: 1, frame: f0.clone(), pause_ms: 18_000, cut: 0, clock_offset_s: None }, crate::e2e::Send { source: 0, frame: f1.clone(), pause_ms: 0, cut: 0, clock_offset_s: Some(-12.0) }],
+        dedup_ms: 60,
+        ..Default::default()
+    };
+    let rep = json!({"kind": "e2e", "scenario": crate::e2e::scenario_json(&sc), "truth": truth.iter().map(|(f, t)| json!([f, t.0, t.1, t.2])).collect::<Vec<_>>(), "needs_gap_s": 10.5});
+    replay_e2e(ctx, env, &sc, &truth, &rep, "c06-clock")
+}
+
 fn e2e_case() -> impl Strategy<Value = E2eCase> {
-    let ac = (0x100000u32..0xfffff0, any::<bool>(), any::<bool>(), 0u8..2, 0.0f64..360.0, 0.0f64..1.0, 0.0f64..100.0, 4u8..24, any::<bool>(), any::<bool>()).prop_map(|(icao, df18, surface, source, bearing, dist_nm, speed_kt, n, odd_first, both)| E2eAircraft { icao, df18, surface, source, bearing, dist_nm, speed_kt, n, odd_first, both });
+    let ac = (0x100000u32..0xfffff0, any::<bool>(), any::<bool>(), 0u8..2, 0.0f64..360.0, 0.0f64..1.0, 0.0f64..100.0, 4u8..24, any::<bool>(), any::<bool>(), 0u8..3).prop_map(|(icao, df18, surface, source, bearing, dist_nm, speed_kt, n, odd_first, both, na)| E2eAircraft { icao, df18, surface, source, bearing, dist_nm, speed_kt, n, odd_first, both, no_alt: na == 0 });
     (point(), 1usize..=2, 20.0f64..60.0, proptest::collection::vec(ac, 1..5), any::<bool>(), any::<bool>()).prop_map(|(p, nsrc, dlon, mut aircraft, update_position, via_config)| {
         let lat = p.lat.clamp(-70.0, 70.0);
         let mut refs = vec![(lat, p.lon)];
@@ -977,7 +1017,7 @@ fn classes(ctx: &Ctx, what: &str, h: &Hist) {
 }
 
 pub fn run(ctx: &Ctx) {
-    ctx.set_rule("histories: 1-4 aircraft, each a plan (start from the C04 strata incl. flights along the 87th parallel, bearing, speed in {0,140,450,700, uniform 0-700} kt, 1-6 segments of 1-29 reports every 0.4-0.6 s separated by gaps from {9.5, 9.99, 10.01, 10.5, 12, 20, 30, 60, 170, 179.9, 180.1, 190, 470, 600, 1000, 1700, 1790, 1860, 2000, 7200 s}, mostly alternating parity, loss levels 0/20/60/90 %, duplicate receptions +<=0.3 s, neighbours delivered in swapped order across any gap (truthful timestamps) or with exchanged timestamps when < 1.5 s apart, DF17 (any capability) or DF18 (any control field) carriers, every airborne (9-18, 20-22) and surface (5-8) type code, altitudes unavailable / 25 ft / Gillham coded, any movement / track / status bits, a quarter of the reports followed by a non-position message of the same aircraft (velocity, identification, status, operational status, target state, type code 0, DF11, DF4) and such messages also arriving during gaps, parity-selective loss (8-67 consecutive reports lose every report of one parity), addresses independent or from one family differing in a few bits / byte order); the airborne alias family 'gap just long enough to fly k latitude / m longitude zones (+-40 km) at <= 690 kt, then airborne again'; surface scenarios add landings, take-offs and the adversarial 'last airborne fix exactly k surface zones away, long gap, then surface' family, with a receiver reference within 36 NM of every surface site and |lat| <= 80; 'hidden reference' scenarios are surface scenarios in which the decoder is given no receiver position at all; 'low altitude' scenarios put every aircraft on one common site, give airborne reports within 15 NM of it altitudes below 1000 ft and let the decoder move the receiver reference to such fixes (as decode1090 always does). Frames from the independent encoder through Message::try_from and decode_positions; and as a JSONL file through the real decode1090 binary (its own loop around decode_position) and, split into chunks, through the Python binding's decode_1090t_vec (positions within 25 m and equal to the library's). End to end: 1-4 slow aircraft (<= 100 kt, airborne within 100 NM / on the ground within 30 NM of their receiver) are served to the real jet1090 binary over one or two Beast TCP sources with receiver references far apart (airborne aircraft may be heard by both receivers, surface aircraft by their own); every position it prints, and every position its /all table holds, must be within 25 m of a position that aircraft reported. Oracle: every attached position within 25 m of the encoded one; per-aircraft outputs bit-identical with and without the other aircraft (fixed reference). Non-trivial = history with >= 1 positioned report and (a gap > 9 s or >= 2 aircraft); distinct by hash of the report list.");
+    ctx.set_rule("histories: 1-4 aircraft, each a plan (start from the C04 strata incl. flights along the 87th parallel, bearing, speed in {0,140,450,700, uniform 0-700} kt, 1-6 segments of 1-29 reports every 0.4-0.6 s separated by gaps from {9.5, 9.99, 10.01, 10.5, 12, 20, 30, 60, 170, 179.9, 180.1, 190, 470, 600, 1000, 1700, 1790, 1860, 2000, 7200 s}, mostly alternating parity, loss levels 0/20/60/90 %, duplicate receptions +<=0.3 s, neighbours delivered in swapped order across any gap (truthful timestamps) or with exchanged timestamps when < 1.5 s apart, DF17 (any capability) or DF18 (any control field) carriers, every airborne (9-18, 20-22) and surface (5-8) type code, altitudes unavailable / 25 ft / Gillham coded, any movement / track / status bits, a quarter of the reports followed by a non-position message of the same aircraft (velocity, identification, status, operational status, target state, type code 0, DF11, DF4) and such messages also arriving during gaps, parity-selective loss (8-67 consecutive reports lose every report of one parity), addresses independent or from one family differing in a few bits / byte order); the airborne alias family 'gap just long enough to fly k latitude / m longitude zones (+-40 km) at <= 690 kt, then airborne again'; surface scenarios add landings, take-offs and the adversarial 'last airborne fix exactly k surface zones away, long gap, then surface' family, with a receiver reference within 36 NM of every surface site and |lat| <= 80; 'hidden reference' scenarios are surface scenarios in which the decoder is given no receiver position at all; 'low altitude' scenarios put every aircraft on one common site, give airborne reports within 15 NM of it altitudes below 1000 ft and let the decoder move the receiver reference to such fixes (as decode1090 always does). Frames from the independent encoder through Message::try_from and decode_positions; and as a JSONL file through the real decode1090 binary (its own loop around decode_position) and, split into chunks, through the Python binding's decode_1090t_vec (positions within 25 m and equal to the library's). End to end: 1-4 slow aircraft (<= 100 kt, airborne within 100 NM / on the ground within 30 NM of their receiver) are served to the real jet1090 binary over one or two Beast TCP sources with receiver references far apart (airborne aircraft may be heard by both receivers, surface aircraft by their own; a third of the aircraft report no altitude); one fast aircraft is heard 18 s apart by two receivers whose Beast clocks differ (the reports must not be paired); every position it prints, and every position its /all table holds, must be within 25 m of a position that aircraft reported. Oracle: every attached position within 25 m of the encoded one; per-aircraft outputs bit-identical with and without the other aircraft (fixed reference). Non-trivial = history with >= 1 positioned report and (a gap > 9 s or >= 2 aircraft); distinct by hash of the report list.");
     ctx.assume("speeds <= 700 kt along great circles (rhumb lines along the 87th parallel); receiver reference fixed (update_reference = None) except in the 'low altitude' scenarios, where every fix that can move it lies within 15 NM of the one site all surface traffic is on");
     ctx.assume("surface aircraft are stationary during gaps, so the 40 NM premise of the property stays true");
     let st = Stats { reports: AtomicU64::new(0), positioned: AtomicU64::new(0), surface_positioned: AtomicU64::new(0), reference_moves: AtomicU64::new(0), fillers: AtomicU64::new(0) };
@@ -1039,8 +1079,18 @@ pub fn run(ctx: &Ctx) {
     match crate::e2e::Env::from_env() {
         Some(env) => {
             let n = ctx.tier.pick(64u32, 800u32);
-            (0..shards).into_par_iter().for_each(|s| {
-                vcore::ev::run_prop_shrink(ctx, &format!("e2e-{s}"), n / shards, 16, e2e_case(), |c| check_e2e(ctx, &env, c, &format!("c06-{s}")));
+            std::thread::scope(|sc| {
+                // 20 s of real time: runs beside the other scenarios
+                let h = sc.spawn(|| clock_mix(ctx, &env));
+                (0..shards).into_par_iter().for_each(|s| {
+                    vcore::ev::run_prop_shrink(ctx, &format!("e2e-{s}"), n / shards, 16, e2e_case(), |c| check_e2e(ctx, &env, c, &format!("c06-{s}")));
+                });
+                match h.join() {
+                    Ok(r) => {
+                        ctx.judge(r);
+                    }
+                    Err(_) => ctx.exclude("end-to-end scenario not judged: harness thread failed"),
+                }
             });
         }
         None => {
